@@ -11,11 +11,18 @@
 #include "thread-link.cpp"
 #undef atomic
 #undef memcpy
+#undef memmove
+#undef __builtin_memcpy
+#undef __builtin_memmove
+#undef copy
+#undef copy_n
 #undef rtosc_message_ring_length
 #include "common.h"
 #include <thread>
 #include <sched.h>
 #include <unistd.h>
+#include <signal.h>
+#include <sys/time.h>
 using namespace vh;
 
 // ---------------------------------------------------------------------------------------
@@ -24,12 +31,21 @@ using namespace vh;
 namespace verif {
 int g_next_var = 0;
 static bool g_active = false;            // scheduled mode (set while no worker runs)
-static thread_local int t_tid = -1;      // 0 writer, 1 reader, -1 anything else
+static thread_local int t_tid = -1;      // role of the running operation: 0 writer, 1 reader, -1 none
+static thread_local int t_decoy = 0;     // > 0: inside an operation on a decoy link (no hooks at all)
 static std::atomic<int> g_turn(-1);      // who may run: -1 controller, 0 writer, 1 reader
 static std::string g_trace;              // written only by the thread holding the baton
 static size_t g_chunk = 0;
 static char *g_ring = nullptr;
 static size_t g_ring_size = 0;
+static std::atomic<unsigned> g_weak(0);  // memory orders weaker than the proof assumes (bit set)
+static std::atomic<bool> g_decoy_bad(false);
+
+struct Role {                            // the role of the calling thread for the time of one operation
+    int old;
+    explicit Role(int r) : old(t_tid) { if (t_tid < 0) t_tid = r; }
+    ~Role() { t_tid = old; }
+};
 
 static void wait_turn(int me) {
     int spins = 0;
@@ -53,47 +69,143 @@ static void ev2(const char *k, long a, long b) {
     g_trace += "+";
     g_trace += std::to_string(b);
 }
-static bool hooked() { return g_active && t_tid >= 0; }
+static bool hooked() { return g_active && t_tid >= 0 && !t_decoy; }
+// operation boundaries (begin/end of the i-th operation of the running thread)
+static void mark(const char *k, long i) { if (hooked()) ev(k, i); }
+
+// --- memory orders ----------------------------------------------------------------------
+static const char *order_name(int o) {
+    switch (o) {
+    case (int)std::memory_order_relaxed: return "relaxed";
+    case (int)std::memory_order_consume: return "consume";
+    case (int)std::memory_order_acquire: return "acquire";
+    case (int)std::memory_order_release: return "release";
+    case (int)std::memory_order_acq_rel: return "acq_rel";
+    default: return "seq_cst";
+    }
+}
+static int order_code(int o) {
+    switch (o) {
+    case (int)std::memory_order_relaxed: return 0;
+    case (int)std::memory_order_consume: return 1;
+    case (int)std::memory_order_acquire: return 2;
+    case (int)std::memory_order_release: return 3;
+    case (int)std::memory_order_acq_rel: return 4;
+    default: return 5;
+    }
+}
+static int code_order(int c) {
+    static const std::memory_order t[6] = {std::memory_order_relaxed, std::memory_order_consume, std::memory_order_acquire,
+                                           std::memory_order_release, std::memory_order_acq_rel, std::memory_order_seq_cst};
+    return (int)t[c];
+}
+// Only accesses made inside a ThreadLink operation count (the constructor publishes nothing).
+static void check_order(int var, bool store, int o) {
+    if (t_tid < 0 || t_decoy || var == V_LA) return;
+    bool weak;
+    if (store) weak = !(o == (int)std::memory_order_release || o == (int)std::memory_order_acq_rel || o == (int)std::memory_order_seq_cst);
+    else {
+        bool foreign = (t_tid == 0 && var == V_READ) || (t_tid == 1 && var == V_WRITE);
+        if (!foreign) return;            // a thread may read its own index any way it likes
+        weak = !(o == (int)std::memory_order_acquire || o == (int)std::memory_order_acq_rel || o == (int)std::memory_order_seq_cst);
+    }
+    if (weak) g_weak.fetch_or(1u << ((store ? 12 : 0) + var * 6 + order_code(o)));
+}
+static std::string weak_report() {
+    unsigned w = g_weak.exchange(0);
+    std::string s;
+    for (int st = 0; st < 2; ++st) for (int var = 0; var < 2; ++var) for (int c = 0; c < 6; ++c)
+        if (w & (1u << (st * 12 + var * 6 + c))) {
+            s += s.empty() ? " MO:" : ",";
+            s += st ? "store-" : "load-";
+            s += var == V_WRITE ? "write-" : "read-";
+            s += order_name(code_order(c));
+        }
+    return s;
+}
 
 // a load of the *other* thread's index is a point; loads of the own index are local
-void on_load(int var) {
+void before_load(int var) {
     if (!hooked()) return;
     if ((t_tid == 0 && var == V_READ) || (t_tid == 1 && var == V_WRITE)) point();
 }
-void after_load(int var, long value) {
+void after_load(int var, long value, int order) {
+    check_order(var, false, order);
     if (!hooked()) return;
     if (t_tid == 0 && var == V_READ) ev("lr", value);
     if (t_tid == 1 && var == V_WRITE) ev("lw", value);
 }
-void on_store(int var, long value) {
+void before_store(int var) {
     if (!hooked()) return;
-    if (var == V_WRITE) { point(); ev("sw", value); }
-    else if (var == V_READ) { point(); ev("sr", value); }
+    if (var == V_WRITE || var == V_READ) point();
 }
+void note_store(int var, long value, int order) {
+    check_order(var, true, order);
+    if (!hooked()) return;
+    if (var == V_WRITE) ev("sw", value);
+    else if (var == V_READ) ev("sr", value);
+}
+
+// --- decoy links ------------------------------------------------------------------------
+// A ThreadLink must not share state with any other ThreadLink.  Each side owns a second, live
+// link (the documented set-up has one link per direction); at every ring copy and at every
+// framing step of the link under test the running thread performs a complete write + read on
+// its decoy and checks the result.  State kept in function-local statics or globals of
+// thread-link.cpp is thereby overwritten in the middle of the operation under test.
+static rtosc::ThreadLink *g_decoy[2] = {nullptr, nullptr};
+static unsigned g_decoy_n[2] = {0, 0};
+static void decoy_op() {
+    int side = t_tid == 0 ? 0 : 1;
+    rtosc::ThreadLink *d = g_decoy[side];
+    if (!d || t_decoy) return;
+    ++t_decoy;
+    unsigned n = ++g_decoy_n[side];
+    char want[32];
+    size_t len;
+    if (n % 3 == 0) {
+        len = rtosc_message(want, sizeof want, "/dcy/r", "i", (int)n);
+        d->raw_write(want);
+    } else {
+        len = rtosc_message(want, sizeof want, "/dcy", "ii", (int)n, (int)side);
+        d->write("/dcy", "ii", (int)n, (int)side);
+    }
+    bool ok = d->hasNext();
+    const char *got = d->read();
+    if (!ok || ::memcmp(got, want, len) != 0 || d->hasNext()) g_decoy_bad.store(true);
+    --t_decoy;
+}
+
 void copy(void *dst, const void *src, size_t n) {
     char *d = (char *)dst;
     const char *s = (const char *)src;
     const char *kind = nullptr;
     long off = 0;
-    if (hooked() && n) {
+    if (!t_decoy && g_ring && n) {
         if (d >= g_ring && d < g_ring + g_ring_size) { kind = "ci"; off = d - g_ring; }
         else if (s >= g_ring && s < g_ring + g_ring_size) { kind = "co"; off = s - g_ring; }
     }
-    if (!kind) { if (n) ::memcpy(dst, src, n); return; }
+    if (kind && t_tid >= 0) decoy_op();
+    if (!kind || !hooked()) { if (n) ::memmove(dst, src, n); return; }
     size_t k = 0;
     while (k < n) {
         size_t c = g_chunk ? (g_chunk < n - k ? g_chunk : n - k) : n - k;
         point();
         ev2(kind, off + (long)k, (long)c);
-        ::memcpy(d + k, s + k, c);
+        ::memmove(d + k, s + k, c);
         k += c;
     }
 }
 size_t ring_length(ring_t *r) {
-    if (!hooked()) return ::rtosc_message_ring_length(r);
+    if (t_decoy) return ::rtosc_message_ring_length(r);
+    if (!hooked()) {
+        if (t_tid >= 0) decoy_op();
+        return ::rtosc_message_ring_length(r);
+    }
     point();
+    long off = r[0].data - g_ring, total = (long)(r[0].len + r[1].len);   // the view this operation built
+    decoy_op();
     size_t len = ::rtosc_message_ring_length(r);
-    ev2("fr", r[0].data - g_ring, (long)(r[0].len + r[1].len));
+    ev2("fr", off, total);
     g_trace += "=";
     g_trace += std::to_string(len);
     return len;
@@ -169,6 +281,7 @@ static void decode(const bytes &m, Decoded &d) {
 
 struct Link {
     rtosc::ThreadLink *tl;
+    rtosc::ThreadLink *decoy[2];
     size_t N;
     Link(size_t maxMsg, size_t nmsgs) {
         verif::g_next_var = 0;
@@ -176,10 +289,22 @@ struct Link {
         N = maxMsg * nmsgs;
         verif::g_ring = tl->ring->buffer;
         verif::g_ring_size = N;
+        for (int k = 0; k < 2; ++k) {
+            verif::g_next_var = 0;
+            decoy[k] = new rtosc::ThreadLink(24, 3);
+            verif::g_decoy[k] = decoy[k];
+            verif::g_decoy_n[k] = 0;
+        }
     }
-    ~Link() { delete tl; verif::g_ring = nullptr; verif::g_ring_size = 0; }
-    // kind: 'w' write() with varargs where the shape allows, 'a' writeArray(), 'x' raw_write()
+    ~Link() {
+        for (int k = 0; k < 2; ++k) { verif::g_decoy[k] = nullptr; delete decoy[k]; }
+        delete tl; verif::g_ring = nullptr; verif::g_ring_size = 0;
+    }
+    // kind: 'w' write() with varargs where the shape allows, 'a' writeArray(), 'x' raw_write() of a
+    // caller-owned block, 'b' the documented in-place idiom: compose the message in buffer()
+    // (capacity buffer_size()) and, if that succeeded, raw_write(buffer())
     bool put(char kind, const bytes &m) {
+        verif::Role role(0);
         long before = tl->ring->write.raw();
         if (kind == 'x') {
             Exact blk(m);
@@ -190,7 +315,11 @@ struct Link {
             if (!d.ok) return false;
             const char *p = d.path.c_str();
             const std::string &t = d.tags;
-            if (kind == 'w' && t == "") tl->write(p, "");
+            if (kind == 'b') {
+                size_t n = rtosc_amessage(tl->buffer(), tl->buffer_size(), p, t.c_str(), d.args.data());
+                if (n) tl->raw_write(tl->buffer());
+            }
+            else if (kind == 'w' && t == "") tl->write(p, "");
             else if (kind == 'w' && t == "i") tl->write(p, "i", d.args[0].i);
             else if (kind == 'w' && t == "ii") tl->write(p, "ii", d.args[0].i, d.args[1].i);
             else if (kind == 'w' && t == "s") tl->write(p, "s", d.args[0].s);
@@ -206,11 +335,16 @@ struct Link {
     }
     // a read returns read_buffer; the number of fresh bytes in it is the distance the index moved
     std::string get(bool lookahead) {
+        verif::Role role(1);
         long before = lookahead ? tl->ring->read_lookahead.raw() : tl->ring->read.raw();
         const char *msg = lookahead ? tl->read_lookahead() : tl->read();
         long after = lookahead ? tl->ring->read_lookahead.raw() : tl->ring->read.raw();
         size_t len = (size_t)((after - before + (long)N) % (long)N);
         return hex((const unsigned char *)msg, len);
+    }
+    bool has(bool lookahead) {
+        verif::Role role(1);
+        return lookahead ? tl->hasNextLookahead() : tl->hasNext();
     }
 };
 
@@ -222,7 +356,7 @@ static bool parse_wops(const std::string &t, std::vector<WOp> &out) {
     std::stringstream ss(t);
     std::string tok;
     while (std::getline(ss, tok, ',')) {
-        if (tok.size() < 2 || (tok[0] != 'w' && tok[0] != 'a' && tok[0] != 'x')) return false;
+        if (tok.size() < 2 || (tok[0] != 'w' && tok[0] != 'a' && tok[0] != 'x' && tok[0] != 'b')) return false;
         WOp op;
         op.kind = tok[0];
         if (!unhex(tok.substr(1), op.m)) return false;
@@ -245,9 +379,9 @@ static std::string seq_line(const std::vector<std::string> &w) {
         std::string o;
         if (t == "r") o = "m" + L.get(false);
         else if (t == "l") o = "m" + L.get(true);
-        else if (t == "h") o = L.tl->hasNext() ? "1" : "0";
-        else if (t == "k") o = L.tl->hasNextLookahead() ? "1" : "0";
-        else if (t[0] == 'w' || t[0] == 'a' || t[0] == 'x') {
+        else if (t == "h") o = L.has(false) ? "1" : "0";
+        else if (t == "k") o = L.has(true) ? "1" : "0";
+        else if (t[0] == 'w' || t[0] == 'a' || t[0] == 'x' || t[0] == 'b') {
             bytes m;
             if (!unhex(t.substr(1), m)) return "bad-op";
             o = L.put(t[0], m) ? "a" : "d";
@@ -271,19 +405,31 @@ struct Job {
 };
 static Job g_job;
 
+// Every operation is bracketed by begin/end markers in the trace (`bw<i>`/`ew<i>`, `br<i>`/`er<i>`):
+// the oracle attributes shared accesses to operations by these, not by counting loads.
 static void run_writer() {
-    for (auto &op : g_job.wops) g_job.wflags += g_job.L->put(op.kind, op.m) ? 'a' : 'd';
+    long i = 0;
+    for (auto &op : g_job.wops) {
+        verif::mark("bw", i);
+        g_job.wflags += g_job.L->put(op.kind, op.m) ? 'a' : 'd';
+        verif::mark("ew", i);
+        ++i;
+    }
 }
 static void run_reader() {
     std::string &o = g_job.routs;
+    long i = 0;
     for (char c : g_job.rops) {
         if (!o.empty()) o += ",";
+        verif::mark("br", i);
         switch (c) {
-        case 'h': o += g_job.L->tl->hasNext() ? "h1" : "h0"; break;
-        case 'k': o += g_job.L->tl->hasNextLookahead() ? "k1" : "k0"; break;
+        case 'h': o += g_job.L->has(false) ? "h1" : "h0"; break;
+        case 'k': o += g_job.L->has(true) ? "k1" : "k0"; break;
         case 'r': o += "r" + g_job.L->get(false); break;
         case 'l': o += "l" + g_job.L->get(true); break;
         }
+        verif::mark("er", i);
+        ++i;
     }
 }
 static void worker(int tid) {
@@ -332,7 +478,7 @@ static std::string conc_line(const std::vector<std::string> &w) {
     while (!J.done[1]) grant(1);
     verif::g_active = false;
     std::string drain;
-    for (size_t i = 0; i < L.N + 2 && L.tl->hasNext(); ++i) {
+    for (size_t i = 0; i < L.N + 2 && L.has(false); ++i) {
         if (!drain.empty()) drain += ",";
         drain += L.get(false);
     }
@@ -354,7 +500,7 @@ static bytes soak_msg(unsigned i, unsigned seed, size_t maxMsg) {
     size_t extra = room ? (x >> 7) % (room + 1) : 0;
     std::string path = "/";
     for (size_t k = 0; k < extra * 4 + 2; ++k) path += (char)('a' + (x >> (k % 13)) % 26);
-    char buf[512];
+    char buf[4200];
     size_t n = rtosc_message(buf, sizeof buf, path.c_str(), "i", (int)i);
     return bytes(buf, buf + n);
 }
@@ -362,14 +508,14 @@ static std::string soak_line(const std::vector<std::string> &w) {
     if (w.size() < 5) return "bad-op";
     size_t maxMsg = strtoul(w[1].c_str(), 0, 10), nmsgs = strtoul(w[2].c_str(), 0, 10);
     unsigned count = strtoul(w[3].c_str(), 0, 10), seed = strtoul(w[4].c_str(), 0, 10);
-    if (maxMsg < 12 || !nmsgs || maxMsg > 256) return "bad-op";
+    if (maxMsg < 12 || !nmsgs || maxMsg > 4096) return "bad-op";
     Link L(maxMsg, nmsgs);
     std::string err;                       // written by the reader thread only, read after join
     std::atomic<bool> stop(false), wdone(false);
     std::thread wt([&] {
         for (unsigned i = 0; i < count && !stop.load(); ++i) {
             bytes m = soak_msg(i, seed, maxMsg);
-            char kind = "wax"[(i + seed) % 3];
+            char kind = "waxb"[(i + seed) % 4];
             while (!L.put(kind, m)) {
                 if (stop.load()) return;
                 sched_yield();
@@ -384,7 +530,7 @@ static std::string soak_line(const std::vector<std::string> &w) {
             if ((++polls & 15) == 0) {
                 // peek along the lookahead queue: must replay next, next+1, … without consuming
                 unsigned k = next;
-                while (k < count && L.tl->hasNextLookahead() && err.empty()) {
+                while (k < count && L.has(true) && err.empty()) {
                     std::string got = L.get(true);
                     if (got != hex(soak_msg(k, seed, maxMsg))) err = "lookahead " + std::to_string(k) + " got " + got;
                     ++k;
@@ -396,9 +542,9 @@ static std::string soak_line(const std::vector<std::string> &w) {
                 }
                 continue;
             }
-            if (!L.tl->hasNext()) {
+            if (!L.has(false)) {
                 // the writer has finished and nothing is queued although messages are missing: lost
-                if (wdone.load() && !L.tl->hasNext()) { err = "message " + std::to_string(next) + " lost"; break; }
+                if (wdone.load() && !L.has(false)) { err = "message " + std::to_string(next) + " lost"; break; }
                 sched_yield();
                 continue;
             }
@@ -410,22 +556,34 @@ static std::string soak_line(const std::vector<std::string> &w) {
     });
     wt.join();
     rt.join();
-    if (err.empty() && L.tl->hasNext()) err = "queue not empty at the end";
+    if (err.empty() && L.has(false)) err = "queue not empty at the end";
     return err.empty() ? "soak ok" : "soak FAIL " + err;
 }
 
 // A line that does not finish (a framing loop that never ends on torn data, a reader that
-// waits for a message that was lost) must not hang the check: SIGALRM ends the process and
-// the runner records `crash:signal:14` for the line.
+// waits for a message that was lost, a length computation that spins) must not hang the check.
+// `seq` lines are pure computation in one thread: they get a CPU-time limit (SIGPROF, independent
+// of the load of the machine); `conc`/`soak` lines a wall-clock limit (SIGALRM).  The runner
+// records `crash:signal:<n>` for the line.
+static void arm(int wall_s, int cpu_s) {
+    alarm(wall_s);
+    struct itimerval it;
+    memset(&it, 0, sizeof it);
+    it.it_value.tv_sec = cpu_s;
+    setitimer(ITIMER_PROF, &it, nullptr);
+}
 static std::string step(const std::string &line) {
     auto w = words(line);
     if (w.empty()) return "bad-op";
     std::string out = "bad-op";
-    alarm(w[0] == "soak" ? 600 : 10);
-    if (w[0] == "seq") out = seq_line(w);
-    else if (w[0] == "conc") out = conc_line(w);
-    else if (w[0] == "soak") out = soak_line(w);
-    alarm(0);
+    verif::g_weak.store(0);
+    verif::g_decoy_bad.store(false);
+    if (w[0] == "seq") { arm(60, 2); out = seq_line(w); }
+    else if (w[0] == "conc") { arm(10, 0); out = conc_line(w); }
+    else if (w[0] == "soak") { arm(600, 0); out = soak_line(w); }
+    arm(0, 0);
+    out += verif::weak_report();
+    if (verif::g_decoy_bad.load()) out += " DECOY-BROKEN";
     return out;
 }
 int main(int argc, char **argv) {
